@@ -142,7 +142,7 @@ func matchTable(c Cfg, method, path, ver string) (routeDef, bool) {
 		return strings.Split(s, "/")
 	}
 	ps := segs(path)
-	if strings.Contains(path, "//") || (len(path) > 1 && strings.HasSuffix(path, "/")) || !strings.HasPrefix(path, "/") {
+	if path != "" && (strings.Contains(path, "//") || (len(path) > 1 && strings.HasSuffix(path, "/")) || !strings.HasPrefix(path, "/")) {
 		return routeDef{}, false // the generator never emits such paths for matched classes
 	}
 	best, bestScore := routeDef{}, -1
@@ -452,6 +452,8 @@ func predict(c Cfg, q Req) facts {
 	rt := route{ok, d.hid, d.pattern}
 	switch {
 	case !ok:
+	case q.Path == "":
+		f.treeRoute = rt // tree.getRoute("") answers with the root node; the hashed tables do not know ""
 	case c.Compiled && d.kind == "static":
 		f.lookupStatic = rt
 	case c.Compiled && d.kind == "emptyroot":
@@ -477,7 +479,7 @@ func predict(c Cfg, q Req) facts {
 		f.vcTree = tv != ""
 		if f.vcTree {
 			if vd, vok := matchTable(c, q.Method, q.Path, tv); vok {
-				if vd.kind == "static" {
+				if vd.kind == "static" && q.Path != "" {
 					f.vCache = route{true, vd.hid, vd.pattern}
 				} else {
 					f.vRoute = route{true, vd.hid, vd.pattern}
@@ -552,7 +554,8 @@ func getRouter(c Cfg) *renv {
 }
 
 func newRequest(q Req) *http.Request {
-	req := httptest.NewRequest(q.Method, "http://h.test"+q.Path, nil)
+	req := httptest.NewRequest(q.Method, "http://h.test/", nil)
+	req.URL.Path = q.Path // exactly the path of the case (CONNECT targets and escapes are not re-parsed)
 	req.Header.Set("X-Prog", q.Prog.header())
 	if q.Ver != "" {
 		req.Header.Set("X-API-Version", q.Ver)
@@ -818,6 +821,13 @@ func classes() []classGen {
 		{"constraint-miss", func(r *hx.Rand) Req { return q("constraint-miss", "GET", "/c/"+hx.Pick(r, []string{"abc", "1a", "-1"}), verHdr(r)) }},
 		{"404", func(r *hx.Rand) Req {
 			return q("404", hx.Pick(r, []string{"GET", "POST", "GET", "PUT"}), hx.Pick(r, []string{"/nope", "/nope/" + v(r), "/s", "/s/a/b", "/d", "/d/" + v(r) + "/e"}), verHdr(r))
+		}},
+		{"odd-method", func(r *hx.Rand) Req {
+			return q("odd-method", hx.Pick(r, []string{"TRACE", "CONNECT", "FOO", "get", "HEAD", "OPTIONS", "PATCH"}),
+				hx.Pick(r, []string{"/", "/s/a", "/d/" + v(r), "/w/" + v(r), "/only/post", "/vs", "/vd/" + v(r), "/nope", "/star*"}), verHdr(r))
+		}},
+		{"odd-path", func(r *hx.Rand) Req {
+			return q("odd-path", hx.Pick(r, []string{"GET", "GET", "POST", "PUT"}), hx.Pick(r, []string{"", "/zz/", "/zz//y", "/%6eope", "/zz/" + strings.Repeat("y", 300), "/s/A", "/S/a"}), verHdr(r))
 		}},
 		{"ver-static", func(r *hx.Rand) Req { return q("ver-static", "GET", hx.Pick(r, []string{"/vs", "/v2only"}), verHdr(r)) }},
 		{"ver-param", func(r *hx.Rand) Req { return q("ver-param", "GET", "/vd/"+v(r), verHdr(r)) }},
